@@ -223,10 +223,19 @@ func (n *Node) start() {
 	n.Hosted = &pocketTypes.HostedBlockchains{M: hosted, L: sync.RWMutex{}}
 	n.Tm = &TmStub{node: n}
 	// the servicer keys and their evidence/session stores (what InitPocketNodeCaches does, over simdb)
+	// The servicer map is built aside and published with one assignment: a metrics goroutine that
+	// the code under test started during an earlier run of this process (GetEvidence ->
+	// go AddSessionFor -> GetPocketNode ranges over GlobalPocketNodes) may still be running, and a
+	// map that is written while it is ranged over ends the process.
+	nodes := map[string]*pocketTypes.PocketNode{}
 	for _, idx := range n.Servicers {
 		pk := KeyFor(cfg.KeySeed, idx)
-		pn := pocketTypes.AddPocketNode(pk, n.logger)
 		addr := AddrOf(pk).String()
+		pn, exists := nodes[addr]
+		if !exists {
+			pn = &pocketTypes.PocketNode{PrivateKey: pk}
+			nodes[addr] = pn
+		}
 		db := n.Disks.Evidence[addr]
 		if db == nil {
 			db = simdb.New()
@@ -241,6 +250,7 @@ func (n *Node) start() {
 			}
 		})
 	}
+	pocketTypes.GlobalPocketNodes = nodes
 	if pocketTypes.GlobalSessionCache == nil {
 		// a node that serves nothing still needs the global caches (dispatch path)
 		pocketTypes.GlobalSessionCache = &pocketTypes.CacheStorage{Cache: sdk.NewCache(cfg.SessionCache), DB: simdb.New(), SealMap: &sync.Map{}}
